@@ -203,6 +203,7 @@ def monitor(scn, sobj, rep, sf, ck):
     queries = 0
     drain_len = 0
     listed_total = 0
+    last_q = [None, None]       # (sequence number, listed keys) of the previous judged Query
 
     for idx, inp in enumerate(scn.inputs):
         if idx >= len(frames):
@@ -270,6 +271,13 @@ def monitor(scn, sobj, rep, sf, ck):
             bad("length-vs-count", "count field %d, frame length %d" % (n, len(raw)))
         if n > cap:
             bad("more-descriptors-than-fit", "%d descriptors" % n)
+        resp_keys = [(esrc, rsrc) for (kind, rsrc, esrc, edst) in descs]
+        if seq == last_q[0] and last_q[1] is not None and resp_keys == last_q[1] and resp_keys and not any(k in om.pending for k in resp_keys):
+            # the same Query again (same number) answered with the very same list: a retransmitted response (MS-LLTD lets a
+            # responder repeat its answer to a repeated request) - not a second report of these observations
+            seen.add("repeated-query-answered-with-the-same-list")
+            continue
+        last_q[0], last_q[1] = seq, resp_keys
         keys = []
         for (kind, rsrc, esrc, edst) in descs:
             k = (esrc, rsrc)
